@@ -100,7 +100,7 @@ func judgeReturn(res *rt.Result) (sig, detail string) {
 			return "returned-value|no-value", "script succeeded without a value"
 		}
 		if class, d := roundTrip(res.Value); class != "" {
-			return fmt.Sprintf("returned-value|%s|%s|%s", class, siteOf(d), normMsg(d)), fmt.Sprintf("returned value %s: %s", trunc(safeString(res.Value), 200), trunc(d, 300))
+			return returnSig(class, d, res.Value), fmt.Sprintf("returned value %s: %s", trunc(safeString(res.Value), 200), trunc(d, 300))
 		}
 		return "", ""
 	case "user":
